@@ -124,7 +124,8 @@ def run_shape(shape, tier):
         if "ref" not in cache:
             cache["ref"] = sem_seq(prog, env, prefer="r")
         ref = cache["ref"]
-        if not (ref.ordered and ref.det and _trailing_ok(prog)):
+        order_promised = ref.ordered and ref.det and _trailing_ok(prog)
+        if not order_promised and not ("slice" in ops_of(prog) and "sort" in ops_of(prog)):
             raise Skip("root order not promised by the property (no trailing total sort)")
         try:
             got = sqlprogs.strip_ignored(sqlmodel.select(ex, env.tables))
@@ -141,6 +142,11 @@ def run_shape(shape, tier):
                 return [("the SQL reads only the leaf tables of the tree", False, {"why": str(e), "sql": str(ex)[:200]})]
             raise Skip(f"invalid SQL: {e} (see C08)")
         info.setdefault("sql", str(ex)[:300])
+        if not order_promised:
+            # the windows inside the program are determinate: at least the multiset of rows is fixed
+            if not ref.det and not ref.sliced:
+                raise Skip("root order not promised by the property (no trailing total sort)")
+            return [("rows of the windows (multiset)", relmodel.mset_eq(relmodel.unordered(got), relmodel.unordered(ref)), {})]
         if not got.ordered:
             info["unspecified"] = True
             raise Skip("order unspecified by SQL (no outer ORDER BY)")
@@ -236,9 +242,11 @@ def concrete_check(prog, rows, bind):
             return False, f"raises:{type(e).__name__}", str(e)[:120]
         if must_refuse:
             return True, "buried-sort-accepted", {"tree": str(rel)}
-        if not _trailing_ok(prog):
-            return False, "", None
         exp = pyeval(prog, rows, bind, env0.tags, prefer="r")
+        if not _trailing_ok(prog):
+            if "slice" in ops_of(prog) and "sort" in ops_of(prog) and common.canon(got) != common.canon(exp):
+                return True, "rows-differ", {"tree": str(rel), "expected": exp, "observed": got, "reverse_unordered_selects": reverse, "sql": str(ex)[:200]}
+            return False, "", None
         if got != exp:
             return True, "order-differs" if common.canon(got) == common.canon(exp) else "rows-differ", {
                 "tree": str(rel), "expected": exp, "observed": got, "reverse_unordered_selects": reverse, "sql": str(ex)[:200]}
